@@ -176,6 +176,10 @@ class Ctx:
         e = dict(os.environ)
         # many TLC processes run side by side: keep each JVM's helper threads few
         e["JAVA_TOOL_OPTIONS"] = (e.get("JAVA_TOOL_OPTIONS", "") + " -XX:ParallelGCThreads=2 -XX:CICompilerCount=2 -Xss256m").strip()
+        # the tools leave small files in the JVM's temporary directory (tlc-*, SANY*): keep them inside the scratch directory
+        jtmp = os.path.join(self.scratch, "jtmp")
+        os.makedirs(jtmp, exist_ok=True)
+        e["JAVA_TOOL_OPTIONS"] += " -Djava.io.tmpdir=" + jtmp
         if (workers or 0) == 1:
             # trace validation: up to 16 such processes run side by side; without a cap each JVM may grow to 25% of RAM
             e["JAVA_TOOL_OPTIONS"] += " -Xmx3g"
